@@ -40,7 +40,8 @@ Record cfg := {
   fix_here : bool;         (* GD_HERE is resolved by gd_getdata64 only, not by inner _GD_DoField calls *)
   fix_text_pseudo : bool;  (* _GD_AsciiSeek rewinds when file->pos is a (negative) pseudo position *)
   fix_leak : bool;         (* D->recurse_level-- on the GD_E_RANGE paths of _GD_DoField / _GD_Seek *)
-  fix_negseek : bool       (* _GD_DoRaw does not seek to a negative sample after an all-padding read *)
+  fix_negseek : bool;      (* _GD_DoRaw does not seek to a negative sample after an all-padding read *)
+  fix_phase_sign : bool    (* _GD_GetIOPos subtracts / _GD_Seek adds the PHASE shift (as reads do) *)
 }.
 
 Inductive enc := ERaw | EBz | ETxt.
@@ -269,7 +270,10 @@ Section Bz.
               (s, Val (r_fpos (get_rs s r) + rd_foff (get_rd d r)))
           | Some (FPhase i sh) =>
               let '(s, o) := get_iopos fuel' d s i in
-              (s, match o with Val p => Val (if p >=? 0 then p + sh else p) | x => x end)
+              (s, match o with
+                  | Val p => Val (if fix_phase_sign (d_cfg d) then p - sh
+                                  else if p >=? 0 then p + sh else p)
+                  | x => x end)
           | Some (FLincom i _ _) | Some (FBit i _ _) => get_iopos fuel' d s i
           | Some (FMult a b) =>
               let '(s, o1) := get_iopos fuel' d s a in
@@ -310,7 +314,8 @@ Section Bz.
                     (* _GD_DoSeek (iopos.c:247): a negative codec result is an I/O error *)
                     (set_rs s r st, if p <? 0 then Err E_IO else Val tt)
                 end
-          | Some (FPhase i sh) => seek_field fuel' d s i (offset - sh)
+          | Some (FPhase i sh) =>
+              seek_field fuel' d s i (if fix_phase_sign (d_cfg d) then offset + sh else offset - sh)
           | Some (FLincom i _ _) | Some (FBit i _ _) => seek_field fuel' d s i offset
           | Some (FMult a b) =>
               let '(s, o2) := seek_field fuel' d s b offset in
